@@ -31,6 +31,13 @@ if [ -x "$ROOT/mc/checks/$id/build.sh" ]; then
 else
   ( cd "$ROOT/mc" && go build $MODFLAG -tags verif -o "$BIN" "./checks/$id" )
 fi || { echo "INFRASTRUCTURE ERROR: build of check $ID failed (does $REPO compile?)"; exit 2; }
+# auxiliary binaries of the check ("parts": <suffix> <package> per line), built the same way
+if [ -f "$ROOT/mc/checks/$id/parts.txt" ]; then
+  while read -r suffix pkg; do
+    [ -n "$suffix" ] || continue
+    ( cd "$ROOT/mc" && go build $MODFLAG -tags verif -o "$BIN-$suffix" "$pkg" ) || { echo "INFRASTRUCTURE ERROR: build of part $suffix of check $ID failed"; exit 2; }
+  done < "$ROOT/mc/checks/$id/parts.txt"
+fi
 if [ "${1:-}" = "--replay" ]; then
   exec "$BIN" -replay "$2"
 fi
